@@ -145,6 +145,11 @@ class BuildAssembly(Assembly):
         for i, scffld in enumerate(ordered_scaffolds):
             keep_start = i == 0
             keep_end = i == last_i
+            if frgmnt.strand == -1:
+                # Scaffolds are ordered by fragment coordinates, but the keep
+                # flags refer to the start and end of the OverlapResult, which
+                # run in the opposite direction on a reverse strand fragment.
+                keep_start, keep_end = keep_end, keep_start
             sub_fragments.append(scffld.trim_fragment(frgmnt, keep_start, keep_end))
         self.qc_sub_fragments(fnd, sub_fragments)
 
